@@ -5,7 +5,9 @@ package harness
 import (
 	"context"
 	"fmt"
+	"google.golang.org/grpc/codes"
 	"google.golang.org/grpc/peer"
+	"google.golang.org/grpc/status"
 	"runtime"
 	"sync"
 	"sync/atomic"
@@ -33,6 +35,8 @@ type c20Case struct {
 	// CallOpts: the stream is opened with grpc.Header / grpc.Trailer / grpc.Peer call options (1 = header,
 	// 2 = trailer, 4 = peer, summed); options only say where results are to be stored
 	CallOpts int `json:",omitempty"`
+	// FinishErr: c2s with ending peer-finish: the handler finishes with trailers and a non-nil status
+	FinishErr bool `json:",omitempty"`
 }
 
 type c20Obs struct {
@@ -138,6 +142,11 @@ func propC20(c c20Case) *Outcome {
 			case reply := <-recvToken:
 				reply <- stream.RecvMsg(new(pb.Message))
 			case <-hReturn:
+				if c.FinishErr {
+					// bails out with trailers and an error: more final frames than the one-message slot holds
+					stream.SetTrailer(metadata.Pairs("zz-t", "1"))
+					return status.Error(codes.Aborted, "handler gave up")
+				}
 				return nil
 			case <-stream.Context().Done():
 				return nil
@@ -183,6 +192,7 @@ func propC20(c c20Case) *Outcome {
 	if !serverStreaming(c.Kind) {
 		clientRecvCost = 2 // the receive of a single-response method probes for a second frame
 	}
+	didRecv := false
 	firstConsume := true
 	doRecv := func() {
 		if c.Dir == "c2s" {
@@ -211,6 +221,7 @@ func propC20(c c20Case) *Outcome {
 			return
 		}
 		firstConsume = false
+		didRecv = true
 		takers += clientRecvCost
 		if s := guardFor(stallBound, "client RecvMsg", func() { cs.RecvMsg(new(pb.Message)) }); s != "" {
 			obs.Fault = s
@@ -278,6 +289,10 @@ func propC20(c c20Case) *Outcome {
 	}
 	// ending event: the parked sender must come back
 	switch {
+	case c.Dir == "s2c" && !serverStreaming(c.Kind) && didRecv && c.N >= 3 && c.Ending == "peer-finish":
+		// the client's one RecvMsg has met the surplus response and ended the call by itself (the peer
+		// has finished): the handler's parked send must come back without anybody cancelling anything
+		o.class("peer-finish-by-cardinality-error")
 	case c.Ending == "cancel" || c.Dir == "s2c":
 		cancel()
 	default:
@@ -323,6 +338,7 @@ func genC20(t *rapid.T) c20Case {
 		c.Recvs = append(c.Recvs, rapid.SampledFrom([]int{0, 0, 1, 1, 2, 3}).Draw(t, "recvs"))
 	}
 	c.Ending = rapid.SampledFrom([]string{"peer-finish", "cancel"}).Draw(t, "ending")
+	c.FinishErr = rapid.Bool().Draw(t, "finisherr")
 	c.CallOpts = rapid.SampledFrom([]int{0, 0, 0, 1, 1, 2, 3, 4, 7}).Draw(t, "callopts")
 	if c.Dir == "c2s" && c.Kind == kBidi {
 		c.Pending = rapid.SampledFrom([]string{"", "", "header", "message"}).Draw(t, "pending")
@@ -347,7 +363,7 @@ func init() { registerReplay("C20", propC20) }
 
 const c20Rule = "rapid-generated: stream kind x direction (client->handler, handler->client) x 1..64 attempted sends x payload size (0..100 KB; fixed cases 40 x 256 KiB, thorough 48 x 1 MiB) x pending header frame or not x first consuming call Header() or RecvMsg x receiver schedule (per quiescent point 0..3 receives) x ending (peer finishes / context cancelled); " +
 	"oracle: at every observation sendsDone <= takers + 1, where takers counts frame-consuming calls before they start (2 per client RecvMsg of a single-response method); with the receiver idle and the sender parked (runtime.Stack state) that means <= 1 completed send however many were attempted; live heap of the stalled stream <= 6 x size + 4 MiB after GC; the parked sender returns within 20 s of the ending event; " +
-	"also generated since the seeded rounds: an unread header/message in the other direction, Header() with and without a pending header frame, request flooding of a server-streaming method through a raw bidi descriptor, grpc.Header/Trailer/Peer call options in every combination; " +
+	"also generated since the seeded rounds: an unread header/message in the other direction, Header() with and without a pending header frame, request flooding of a server-streaming method through a raw bidi descriptor, grpc.Header/Trailer/Peer call options in every combination, handlers finishing with trailers and an error while the client's sender is parked; " +
 	"non-trivial = >= 3 attempted sends and the receiver idle at least once while sends remained; distinct by case hash"
 
 func TestC20(t *testing.T) {
